@@ -50,7 +50,8 @@ type Engine struct {
 	prog                 *ssa.Program
 	hpkg                 *ssa.Package
 	obligs               []*Oblig
-	growFeasSecs         float64
+	growFeasSecs float64
+	feasQueryMs  int
 	obIndex              map[string]*Oblig
 	assumes              []*Term
 	loops                map[*ssa.Function]*loopForest
@@ -1087,7 +1088,11 @@ func (e *Engine) feasibleSMT(g *Term) bool {
 			return true
 		}
 	}
-	r := p.check([]*Term{g}, 1500, false)
+	qms := 1500
+	if e.feasQueryMs > 0 {
+		qms = e.feasQueryMs
+	}
+	r := p.check([]*Term{g}, qms, false)
 	e.feasN++
 	e.feasSecs += time.Since(t0).Seconds()
 	if r.verdict == "unsat" {
